@@ -1,6 +1,7 @@
 (* Model/Cmd.v - what leaves Bert-E when it runs a shell command or talks to the GitHub API.
 
-   Mirrors (repaired or not: see [links] and [token_flow_prints_headers])
+   Mirrors (repaired or not: see [links] - exception links and guarded clean-up of _do_cmd - and
+   [token_flow_prints_headers])
      bert_e/lib/simplecmd.py   cmd, _do_cmd (masking closures, the three ways a command ends)
      bert_e/lib/git.py         Repository.cmd (default mask, retry), checkout / push / push_all wrappers
      bert_e/bert_e.py          BertE.process (LOG.exception), process_task (LOG.exception, job.status/details)
@@ -91,17 +92,23 @@ Definition short_name (ty : string) : string := after_last_dot ty ty.
 Inductive behaviour :=
 | Exit (code : Z)               (* the process ends by itself; negative = killed by a signal *)
 | Timeout                       (* communicate(timeout) expires; the process group is killed *)
+| TimeoutErr (ty msg : string)  (* the same, and the clean-up in the except block (killpg, second communicate:
+                                   e.g. partial output that cannot be decoded) raises in turn *)
 | OsErr (ty msg : string).      (* any other exception inside the try block of _do_cmd *)
 
 (* one run of the process: how it ends, what it wrote on stdout, then on stderr *)
 Record attempt := { a_beh : behaviour; a_out : string; a_err : string }.
 
-(* the two places where the raw error is linked to the CommandError: the switch of F10 *)
-Record links := { l_timeout : link_kind; l_oserr : link_kind }.
-Definition code_links : links := {| l_timeout := timeout_link; l_oserr := oserr_link |}.
-Definition repaired_links : links := {| l_timeout := LinkNone; l_oserr := LinkNone |}.
+(* the switch of F10: how the raw error is linked to the CommandError at the two raise sites, and whether
+   the clean-up after a timeout is guarded (an exception escaping from inside the except block would carry
+   the TimeoutExpired as its context) *)
+Record links := { l_timeout : link_kind; l_oserr : link_kind; l_guarded : bool }.
+Definition code_links : links :=
+  {| l_timeout := timeout_link; l_oserr := oserr_link; l_guarded := timeout_cleanup_guarded |}.
+Definition repaired_links : links := {| l_timeout := LinkNone; l_oserr := LinkNone; l_guarded := true |}.
 Definition link_leaky (k : link_kind) : bool := match k with LinkNone => false | _ => true end.
-Definition links_leaky (lk : links) : bool := link_leaky (l_timeout lk) || link_leaky (l_oserr lk).
+Definition links_leaky (lk : links) : bool :=
+  link_leaky (l_timeout lk) || link_leaky (l_oserr lk) || negb (l_guarded lk).
 
 Record cfg := {
   c_mask : string;     (* the mask_pwd keyword argument ("" = none) *)
@@ -139,6 +146,13 @@ Definition cmd_once (lk : links) (c : cfg) (a : attempt) (pending : option exc)
       (start +++ dbg [(Log DEBUG, fmt timeout_debug_fmt [c_cwd c])],
        inr (raise_from (l_timeout lk) command_error_name
               (fmt timeout_msg_fmt [maybe_mask timeout_msg_cmd_masked (c_mask c) (c_cmd c)]) false te))
+  | TimeoutErr ty msg =>
+      let te := raise_in pending timeout_expired_name (timeout_expired_text (c_cmd c) (c_tout c)) true in
+      if l_guarded lk then
+        (start +++ dbg [(Log DEBUG, fmt timeout_debug_fmt [c_cwd c])],
+         inr (raise_from (l_timeout lk) command_error_name
+                (fmt timeout_msg_fmt [maybe_mask timeout_msg_cmd_masked (c_mask c) (c_cmd c)]) false te))
+      else (start, inr (raise_from LinkContext ty msg true te))    (* escapes as it is, unmasked *)
   | OsErr ty msg =>
       let oe := raise_in pending ty msg true in
       (start, inr (raise_from (l_oserr lk) command_error_name
@@ -163,6 +177,8 @@ Fixpoint repo_cmd (lk : links) (c : cfg) (retry : nat) (atts : list attempt) (pe
       match r with
       | inl o => (em, inl o)
       | inr e =>
+          if e_foreign e then (em, inr e)       (* not a CommandError: "except CommandError" lets it pass *)
+          else
           match retry with
           | O => (em, inr e)
           | S k =>
@@ -180,6 +196,7 @@ Definition wrap (w : wrapper) (e : exc) : option exc :=
   match w with
   | WNone => Some e
   | WMethod m name =>
+      if e_foreign e then Some e else           (* the wrappers only catch CommandError *)
       match find (fun x => fst x =? m) wrappers with
       | None => None
       | Some (_, (ty, (what, k))) =>
